@@ -325,6 +325,17 @@ def has_sched(tree):
     return any(n["t"] == "scheduled" for n in tree_nodes(tree))
 
 
+def _nested_patchwise(tree, inside=False):
+    """patchwise below patchwise multiplies the number of member calls (up to 24 x 24 per sample): cost bound of a case"""
+    if tree["t"] == "patchwise":
+        return inside or _nested_patchwise(tree["child"], True)
+    if tree["t"] in ("compose", "semseg_seq"):
+        return any(_nested_patchwise(m, inside) for m in tree["members"])
+    if tree["t"] in ("random_apply", "scheduled"):
+        return _nested_patchwise(tree["child"], inside)
+    return False
+
+
 def gen_tree(rng, T, depth):
     """random composition of real transforms for input type T that can be driven inside a dataloader worker (h07 marks about a
     third of its composes as edited after construction: a member appended / inserted / swapped into `.transforms` afterwards)"""
@@ -332,7 +343,7 @@ def gen_tree(rng, T, depth):
     for attempt in range(8):
         f = dict(flags, under_schedule=True) if attempt >= 2 else flags
         tree, outT = H.gen_composition(rng, T, depth, f)
-        if sched_reachable_only_through_compose(tree) and sched_children_scalable(tree):
+        if sched_reachable_only_through_compose(tree) and sched_children_scalable(tree) and not _nested_patchwise(tree):
             return tree, outT
     tree, outT = H.gen_composition(rng, T, 0, flags)
     return tree, outT
